@@ -502,10 +502,36 @@ def guard_coerce_callers(prog):
     if bad:
         return False, "conway_coerce_to_coin is reached from %s, whose argument map was not reviewed" % bad
     # the non-negative helper must still drop zero entries before returning
+    # ... per asset: somewhere in the helper (its closures included) a retain/filter over a map or sequence whose values are the
+    # u64 quantities keeps an entry only if `quantity > 0` (or != 0 / >= 1).  A policy-level filter alone leaves zero quantities in.
     h = prog.find(r"pallas_validate::utils::conway_add_multiasset_non_negative_values$")
-    if len(h) != 1 or not any(re.search(r"HashMap.*::retain$", panic.strip_generics(t.get("f") or "")) for bi, t in h[0].calls()):
-        return False, "conway_add_multiasset_non_negative_values no longer filters its result with HashMap::retain"
-    return True, "callers in the closure: %s; zero entries are dropped by HashMap::retain" % [short_path(c) for c in cs]
+    if len(h) != 1:
+        return False, "conway_add_multiasset_non_negative_values not found"
+    bodies = [h[0]]
+    work = [h[0]]
+    while work:
+        g = work.pop()
+        for k in prog.closure_children(g):
+            bodies.append(k)
+            work.append(k)
+    per_asset = False
+    for g in bodies:
+        for bi, t in g.calls():
+            name = panic.strip_generics(t.get("f") or "")
+            targs = t.get("targs", [])
+            if not re.search(r"HashMap::(retain|extract_if)$|BTreeMap::(retain|extract_if)$", name) or len(targs) < 2 or targs[1] != "u64":
+                continue
+            # the predicate: a closure of g comparing the (dereferenced) quantity with the constant 0 (or >= 1)
+            for k in prog.closure_children(g):
+                for bj, sj, st in k.statements():
+                    if st[0] == "a" and st[2]["k"] == "bin" and st[2]["op"] in ("Gt", "Ne", "Ge", "Lt", "Le"):
+                        for x, y in ((st[2]["l"], st[2]["r"]), (st[2]["r"], st[2]["l"])):
+                            ys = k.sym_operand(y)
+                            if ys[0] == "const" and str(ys[2]) == "u64" and int(ys[1]) in (0, 1):
+                                per_asset = True
+    if not per_asset:
+        return False, "conway_add_multiasset_non_negative_values no longer drops zero quantities per asset (no retain over the asset map with predicate quantity > 0): conway_coerce_to_coin can meet a zero"
+    return True, "callers in the closure: %s; zero quantities are dropped per asset by retain(quantity > 0)" % [short_path(c) for c in cs]
 
 
 def derive_entry(table, s):
